@@ -1,0 +1,35 @@
+"""Verification hooks (read-only event recorder).
+
+Everything here is inert unless the environment variable ``SKGLM_VERIF`` is ``1`` when skglm is
+imported *and* a trace has been started with :func:`start`.  Solvers call :func:`emit` behind an
+``if _verif.ENABLED`` guard; events only copy values, they never change solver state.
+"""
+import os
+
+import numpy as np
+
+ENABLED = os.environ.get("SKGLM_VERIF") == "1"
+TRACE = None
+
+
+def start():
+    """Begin recording events."""
+    global TRACE
+    TRACE = []
+
+
+def stop():
+    """Stop recording and return the list of ``(kind, data)`` events."""
+    global TRACE
+    t, TRACE = TRACE, None
+    return t
+
+
+def emit(kind, **data):
+    """Record one event (arrays are copied)."""
+    if TRACE is None:
+        return
+    rec = {}
+    for k, v in data.items():
+        rec[k] = np.array(v, copy=True) if isinstance(v, np.ndarray) else v
+    TRACE.append((kind, rec))
